@@ -26,8 +26,14 @@ MANIFEST = dict(
 ST = "esutil.stat.util."
 
 
+# rules that keep their verdict however the code is laid out (decided by term equality, effect analysis or dominance over
+# resolved calls); every other rule of this check is a template rule (vcheck.core.Check.obt)
+SEMANTIC = ('R05.1', 'R05.2', 'R05.4')
+
+
 def run(chk):
     repo = PyRepo()
+    chk.set_templates(repo, semantic=SEMANTIC)
     chk.explanation = MANIFEST["text"]
     chk.trusted = ["clang 14 AST", "sympy normaliser", "numpy stable argsort", "LP64"]
     chk.assume("LP64 platform: argsort/arange yield int64, npy_int64 is long")
